@@ -53,7 +53,7 @@ class _Interp(absint.Interp):
 
     def rvalue(self, rv, bi, st):
         if rv['r'] == 'agg' and rv['kind'].get('k') == 'adt' and rv['kind'].get('path', '').endswith('result::Result'):
-            return ('var', 'std::result::Result', rv['kind']['variant'])
+            return ('var', 'std::result::Result', rv['kind']['variant'], tuple(self.operand(o, bi, st) for o in rv['ops']))
         if rv['r'] == 'bin' and rv['op'] in ('Eq', 'Ne'):
             a, b = self.operand(rv['a'], bi, st), self.operand(rv['b'], bi, st)
             for x, y in ((a, b), (b, a)):
